@@ -17,9 +17,14 @@
 (*   RTTE_DEPTH  [5]   exploration depth from the fresh estimator          *)
 (*   RTTE_WDEPTH [3]   exploration depth from the warmed-up estimators     *)
 (*   RTTE_FULL   [5]   every distinct state at this depth is emitted       *)
-(*   RTTE_STRIDE [1], RTTE_OFFSET [0]   at the maximal depth from the fresh *)
-(*                     estimator one state in STRIDE is emitted (all of    *)
-(*                     them from the warmed-up estimators)                 *)
+(*   RTTE_STRIDE [1], RTTE_OFFSET [0]   at the maximal depth from the      *)
+(*                     fresh estimator one state in STRIDE is emitted (all *)
+(*                     of them from the warmed-up estimators)              *)
+(*   RTTE_LEAFCUT [0]  1: states at the maximal depth are generated and    *)
+(*                     checked (invariants, step property, emission) but   *)
+(*                     neither fingerprinted nor queued (CONSTRAINT        *)
+(*                     LeafCut); they have no successors anyway.  Saves    *)
+(*                     the frontier of the deep instance (92% of states).  *)
 (*   RTTE_INIT_MS, RTTE_INIT_NS [300, 0]  the timeout before the first     *)
 (*                     sample, which the property leaves open              *)
 (***************************************************************************)
@@ -32,6 +37,8 @@ WarmDepth == EnvInt("RTTE_WDEPTH", 3)
 FullDepth == EnvInt("RTTE_FULL", 5)
 Stride    == EnvInt("RTTE_STRIDE", 1)
 Offset    == EnvInt("RTTE_OFFSET", 0)
+
+LeafCutOn == EnvInt("RTTE_LEAFCUT", 0) = 1
 
 MCInitialRto == <<EnvInt("RTTE_INIT_MS", 300), EnvInt("RTTE_INIT_NS", 0)>>
 
@@ -110,11 +117,15 @@ MCTimeout ==
 MCNext == WarmStep \/ (\E i \in DOMAIN SampleSeq : MCSample(i)) \/ MCTimeout
 MCSpec == MCInit /\ [][MCNext]_mcvars
 
+(* TLC checks invariants and step properties on a state that fails a CONSTRAINT, but does not
+   fingerprint or queue it. *)
+LeafCut == ~LeafCutOn \/ n < DepthHere
+
 ---------------------------------------------------------------------------
 (* Case emission: evaluated once per distinct state (by View).  The whole line is one string so
-   that TLC's pretty-printer does not break it. *)
-(* a hash of the estimator state (not of the witness, which may differ from run to run with several
-   workers), so that the set of emitted states is the same in every run *)
+   that TLC's pretty-printer does not break it.
+   Hash: of the estimator state (not of the witness, which may differ from run to run with several
+   workers), so that the set of emitted states is the same in every run. *)
 Hash == (st.srtt[1] * 7 + st.srtt[2] + st.rttvar[1] * 13 + st.rttvar[2] * 3 + st.rto[1] + st.rto[2] + st.k) % Stride
 
 Emit ==
